@@ -1043,6 +1043,10 @@ class TimePDF(
         ValueError
             If some of the data is outside the time range of the PDF.
         """
+        # The time axis follows the live-time, which could have been altered
+        # from outside this PDF.
+        self._ensure_S_is_up_to_date()
+
         time_axis = self.axes['time']
 
         time = tdm.get_data('time')
